@@ -499,6 +499,50 @@ def long_encodings(ctx, rng, reps):
                         ctx.violation("long", "long-array:residue-after-failures", det)
 
 
+def failed_dereferences(ctx):
+    """A pointer whose target is cut off by the end of the stream: dereferencing raises, and the failure leaves the
+    stream where it was -- the next record parsed from the same stream is the one a run without the failed dereference
+    parses, and a later dereference of a good pointer works."""
+    import io
+
+    text = "struct rec { uint8 tag; uint32 *far; uint16 *near; uint8 t; };\nstruct big { uint8 tag; rec *r; uint8 t; };"
+    for compiled in (True, False):
+        for endian in "<>":
+            bo = "little" if endian == "<" else "big"
+            ctx.evaluation(("failed-dereference", compiled, endian))
+            ctx.cell("failed-dereference-then-next-record")
+            det = {"text": text, "compiled": compiled, "endian": endian, "workload": "failed-dereference"}
+            try:
+                cs = lib.load(text, endian, False, compiled, "uint8")
+                # two records back to back, then a uint16 target; `far` of the first points at the last two bytes (cut off)
+                total = 8 + 2 + 2
+                recs = bytes([1, total - 2, 8, 0x11]) + bytes([2, total - 2, 8, 0x22]) + (0xBEEF).to_bytes(2, bo) + b"\x01\x02"
+                outcomes = []
+                for fail_first in (True, False):
+                    st = io.BytesIO(recs)
+                    a = cs.rec(st)
+                    pos = st.tell()
+                    err = None
+                    if fail_first:
+                        try:
+                            a.far.dereference()
+                        except Exception as e:  # noqa: BLE001
+                            err = type(e).__name__
+                    after = st.tell()
+                    b = cs.rec(st)
+                    outcomes.append((err, pos, after, int(b.tag), int(b.t), int(b.near.dereference()), int(a.near.dereference()), st.tell()))
+                want = (4, 4, 2, 0x22, 0xBEEF, 0xBEEF, 8)
+            except Exception as e:  # noqa: BLE001
+                ctx.violation("residue", f"failed-dereference-workload-raises:{type(e).__name__}", dict(det, error=lib.exc_sig(e)))
+                continue
+            if outcomes[0][0] is None:
+                ctx.violation("fabricated", "dereference-of-a-cut-off-target-returns-a-value", dict(det, outcomes=repr(outcomes)))
+            elif outcomes[0][1:] != want or outcomes[1][1:] != want:
+                ctx.violation("residue", "failed-dereference-changes-what-is-parsed-next", dict(det, outcomes=repr(outcomes), want=repr(want)))
+            else:
+                ctx.event("failed_dereferences_checked")
+
+
 def gen_opts(rng, thorough):
     o = dict(dyn_unions=rng.random() < 0.3, max_len=3)
     if thorough:
@@ -513,6 +557,7 @@ def run(ctx):
         eof_elements(ctx, ctx.rng("eof-elements"), 2 if not ctx.thorough else 20)
     if ctx.shard == 4:
         single_char_member_at_offset(ctx)
+        failed_dereferences(ctx)
     if ctx.shard % 8 == 7:
         long_encodings(ctx, ctx.rng("long-encodings"), 1 if not ctx.thorough else 6)
     if ctx.shard % 8 == 6:
@@ -530,6 +575,10 @@ def run(ctx):
 
 
 def replay(ctx, detail):
+    if detail.get("workload") == "failed-dereference":
+        print(detail)
+        failed_dereferences(ctx)
+        return
     if detail.get("workload") == "long-encodings":
         print(detail)
         long_encodings(ctx, ctx.rng("long-encodings"), 2)
